@@ -561,6 +561,10 @@ class Net:
         node: Host = NODE.get()
         if node is None:
             raise RuntimeError("create_connection outside of a simulated host")
+        if not isinstance(port, int) or not 0 <= port <= 65535:
+            # what socket.connect() does with such an address (ports travel as uint32 in the protocol)
+            self.fired['connect_bad_port'] += 1
+            raise OverflowError('connect(): port must be 0-65535.')
         dst = self.resolve(host)
         attempt = {'src': node.name, 'dst': dst.name if dst else host, 'ip': host, 'port': port, 'time': loop.time()}
         self.connect_attempts.append(attempt)
